@@ -48,6 +48,12 @@ with concurrent.futures.ThreadPoolExecutor(max_workers=jobs) as ex:
         for name, r in res:
             out[name] = r
             print(name, r.get("signature"), "WITH-INPUT" if r.get("with_input") else ("obligation-only" if r.get("violation_line") else "MISSED"), r.get("wall_s"), r.get("error", ""), flush=True)
-json.dump({"head": sh("git -C /repo rev-parse --short HEAD").stdout.strip(), "results": out}, open("/verif/seeded/SWEEP.json", "w"), indent=1, sort_keys=True)
+# a sweep of some properties keeps the recorded results of the others
+try:
+    prev = json.load(open("/verif/seeded/SWEEP.json")).get("results", {})
+except Exception:
+    prev = {}
+prev.update(out)
+json.dump({"head": sh("git -C /repo rev-parse --short HEAD").stdout.strip(), "results": prev}, open("/verif/seeded/SWEEP.json", "w"), indent=1, sort_keys=True)
 n = len(out); w = sum(1 for r in out.values() if r.get("with_input")); o = sum(1 for r in out.values() if r.get("violation_line") and not r.get("with_input"))
 print(f"TOTAL {n}: with input {w}, obligation only {o}, missed {n - w - o}")
